@@ -20,6 +20,26 @@ FLOATS = (0.0, 5e-324, 2.0 ** -1074, 2.0 ** -53, 1e-300, 1e-17, 1e-9, 0.5, 1.0 -
 LABELS = (0, 1, 255, 256, 257, 258, 1000, 2 ** 31, 2 ** 63 + 5)
 
 
+# CPython hashes an int n as n mod (2^61 - 1) (and -1 as -2): distinct labels with EQUAL hashes.  Anything keyed by the hash of
+# a label, or of a set of labels, instead of by the label confuses such twins; no other value exposes that.
+HASH_MODULUS = 2 ** 61 - 1
+
+
+def hash_twins(prng, labels):
+    """The label list with one label replaced by the hash twin (+ 2^61 - 1) of ANOTHER label of the list (non-negative ints
+    only; unchanged if impossible).  The two then are different vertices with the same hash."""
+    ints = [i for i, v in enumerate(labels) if isinstance(v, int) and not isinstance(v, bool) and v >= 0]
+    if len(ints) < 2:
+        return list(labels)
+    i, j = prng.sample(ints, 2)
+    twin = labels[i] + HASH_MODULUS
+    if twin in labels:
+        return list(labels)
+    out = list(labels)
+    out[j] = twin
+    return out
+
+
 def size(prng, lo=0, hi=None):
     c = [x for x in SIZES if x >= lo and (hi is None or x <= hi)]
     return prng.choice(c) if c else lo
